@@ -62,7 +62,7 @@ static void gen_knobs(bool quick) {
     K.short_write_pm = sim_rndn(4) == 0 ? (int)sim_rndn(300) : 0;
     K.eintr_pm = sim_rndn(4) == 0 ? (int)sim_rndn(100) : 0;
     K.zombie_delay_us = sim_rndn(2) ? (int)sim_rndn(200) : 0;
-    K.max_steps = quick ? 3000000 : 20000000; K.max_blocks = 150000000;
+    K.max_steps = quick ? 3000000 : 20000000; K.max_blocks = 150000000; K.max_sim_us = 3600ull * 1000000ull;
 }
 static void plan_gen(DPlan *P, uint64_t seed, const RunOpts *o) {
     memset(P, 0, sizeof *P);
@@ -271,7 +271,7 @@ static void *bad_peer(void *arg) {
 }
 
 /* ---------------- prober: is the daemon still serving? ---------------- */
-typedef struct Probe { bool connected, pong; int err; int phase; bool done; } Probe;
+typedef struct Probe { bool connected, pong; int err; int phase; bool done; long active_reported; } Probe;
 static void *prober(void *arg) {
     Probe *pr = arg;
     int fd = k_socket();
@@ -282,6 +282,22 @@ static void *prober(void *arg) {
         uint8_t r[VMD_HEADER_SIZE]; size_t got = 0;
         while (got < sizeof r) { ssize_t k = k_read(fd, r + got, sizeof r - got); if (k < 0 && errno == EINTR) continue; if (k <= 0) break; got += (size_t)k; }
         if (got == sizeof r && r[1] == VMD_MSG_PONG) pr->pong = true;
+    }
+    k_close(fd);
+    /* second connection: STATUS.  The payload is free text; if it carries a number it is the count of active sessions,
+     * which at this point (long after every other session ended) is this one */
+    pr->active_reported = -1;
+    sim_sleep_us(1000000);   /* let the PING session's thread finish its own bookkeeping first */
+    fd = k_socket();
+    if (k_connect_path(fd, sock_path) == 0) {
+        put_hdr(h, VMD_PROTO_VERSION, VMD_MSG_STATUS, 0);
+        if (send_all(fd, h, sizeof h)) {
+            uint8_t r[VMD_HEADER_SIZE + 128]; size_t got = 0;
+            for (;;) { ssize_t k = k_read(fd, r + got, sizeof r - got); if (k < 0 && errno == EINTR) continue; if (k <= 0) break; got += (size_t)k; if (got == sizeof r) break; }
+            if (got > VMD_HEADER_SIZE && r[1] == VMD_MSG_STATUS_RSP) {
+                for (size_t i = VMD_HEADER_SIZE; i < got; i++) if (r[i] >= '0' && r[i] <= '9' || (r[i] == '-' && i + 1 < got && r[i + 1] >= '0' && r[i + 1] <= '9')) { char tmp[32] = {0}; size_t l = got - i < 31 ? got - i : 31; memcpy(tmp, r + i, l); pr->active_reported = strtol(tmp, NULL, 10); break; }
+            }
+        }
     }
     k_close(fd);
     pr->done = true;
@@ -426,6 +442,10 @@ static void fam_run(uint64_t seed, const RunOpts *o, Result *r) {
             buf_printf(&r->detail, "daemon not alive at end of run (status %d) stderr=[%.*s]\n", daemon->status, (int)(derr.len > 300 ? 300 : derr.len), derr.d ? (char *)derr.d : "");
         } else {
             if (!pr.pong) { res_violation(r, prop, "no-pong-after-faults"); buf_printf(&r->detail, "prober: connected=%d pong=%d errno=%d\n", pr.connected, pr.pong, pr.err); }
+            if (pr.pong && pr.active_reported != -1 && pr.active_reported != 1) {
+                res_violation(r, prop, "session-count-drift:%ld", pr.active_reported);
+                buf_printf(&r->detail, "STATUS long after all sessions ended reports %ld active sessions (the query itself is the only one): bad sessions corrupted the daemon's bookkeeping\n", pr.active_reported);
+            }
             int lt = sim_proc_live_tasks(daemon);
             if (lt != 1) { res_violation(r, prop, "session-leaked:%d", lt - 1); buf_printf(&r->detail, "daemon has %d session threads still alive at quiescence\n", lt - 1); }
         }
